@@ -345,6 +345,22 @@ func (o *obsTable) get(id leafID, c ctxT) (bool, bool) {
 
 var chk *vlib.Check
 
+// soft deadline (safety net for an oversubscribed machine): work items that start after it
+// are skipped and the run is reported as not exhaustive, naming the first phase cut short.
+var (
+	deadline     time.Time
+	deadlineOnce sync.Once
+	deadlineAt   string
+)
+
+func over(phase string) bool {
+	if deadline.IsZero() || time.Now().Before(deadline) {
+		return false
+	}
+	deadlineOnce.Do(func() { deadlineAt = phase })
+	return true
+}
+
 // judge compares got with the reference for (script bytes, ctx) on a layer and reports.
 // tree = verif/space parse of the bytes that were fed to the code under test.
 func judge(fn, layer string, era int, slot uint64, obs *obsTable, sc string, enc []byte, tree *space.Node, c ctxT, got bool, isLeaf bool, variant string, canon func() (bool, bool)) {
@@ -807,6 +823,7 @@ func main() {
 	slots1 := []uint64{7}
 
 	t0 := time.Now()
+	deadline = c.Deadline(170*time.Second, 560*time.Second)
 	debug.SetGCPercent(400)
 	if p := os.Getenv("VERIF_PPROF"); p != "" {
 		fh, _ := os.Create(p)
@@ -830,6 +847,9 @@ func main() {
 	}
 	lcE.flush()
 	vlib.Parallel(len(depth1Big), func(i int) {
+		if over("layer E depth 1") {
+			return
+		}
 		var lc localCount
 		s := depth1Big[i]
 		if !runE(obsE, s, s.enc, ctxsLeaf, slotsLeaf, "", &lc) {
@@ -843,6 +863,9 @@ func main() {
 	const chunk = 512
 	nChunks := (nD2 + chunk - 1) / chunk
 	vlib.Parallel(nChunks, func(ci int) {
+		if over("layer E depth 2") {
+			return
+		}
 		var lc localCount
 		shapes := map[string]struct{}{}
 		for idx := ci * chunk; idx < (ci+1)*chunk && idx < nD2; idx++ {
@@ -880,6 +903,9 @@ func main() {
 	}
 	allD1 := append(append([]script{}, leavesBig...), depth1Big...)
 	vlib.Parallel(len(allD1), func(i int) {
+		if over("layer E re-encodings depth<=1") {
+			return
+		}
 		var lc localCount
 		reenc(allD1[i], ctxsLeaf, &lc)
 		lc.flush()
@@ -898,6 +924,9 @@ func main() {
 		n := 6 * kidLists(len(pool))
 		nCh := (n + chunk - 1) / chunk
 		vlib.Parallel(nCh, func(ci int) {
+			if over("layer E re-encodings depth 2") {
+				return
+			}
 			var lc localCount
 			for idx := ci * chunk; idx < (ci+1)*chunk && idx < n; idx++ {
 				cb, code := idx/kidLists(len(pool)), idx%kidLists(len(pool))
@@ -911,6 +940,7 @@ func main() {
 	// ======== layer R ========
 	eras := []int{EraAllegra, EraMary, EraAlonzo, EraBabbage, EraConway, EraDijkstra}
 	var rejR sync.Map
+	fixes := map[int]*eraFix{}
 	for _, era := range eras {
 		f := newEraFix(era, c.Seed)
 		// driver sanity: the decoded transaction exposes the interval we encoded (as far as the API can)
@@ -939,6 +969,9 @@ func main() {
 			cxR = ctxs
 		}
 		vlib.Parallel(len(d1R), func(i int) {
+			if over("layer R depth 1") {
+				return
+			}
 			var lc localCount
 			s := d1R[i]
 			for _, cx := range cxR {
@@ -952,6 +985,9 @@ func main() {
 		phase("R " + EraNames[era] + " depth<=1 done")
 		// slot independence: the ledger semantics do not read the current slot
 		vlib.Parallel(len(leavesBig), func(i int) {
+			if over("layer R slot independence (leaves)") {
+				return
+			}
 			var lc localCount
 			for _, cx := range ctxsLeaf {
 				f.runR(leavesBig[i], leavesBig[i].enc, cx, 0, "", &lc)
@@ -959,8 +995,16 @@ func main() {
 			}
 			lc.flush()
 		})
+		fixes[era] = f
+	}
+	// second pass over the eras: the expensive extras (so that a soft deadline never starves a whole era of the basic cases)
+	for _, era := range eras {
+		f := fixes[era]
 		if c.Thorough() {
 			vlib.Parallel(len(depth1Big), func(i int) {
+				if over("layer R slot independence (depth 1)") {
+					return
+				}
 				var lc localCount
 				for _, cx := range ctxs {
 					f.runR(depth1Big[i], depth1Big[i].enc, cx, 0, "", &lc)
@@ -985,6 +1029,9 @@ func main() {
 			n := 6 * kidLists(len(pool))
 			nCh := (n + chunk - 1) / chunk
 			vlib.Parallel(nCh, func(ci int) {
+				if over("layer R depth 2") {
+					return
+				}
 				var lc localCount
 				for idx := ci * chunk; idx < (ci+1)*chunk && idx < n; idx++ {
 					cb, code := idx/kidLists(len(pool)), idx%kidLists(len(pool))
@@ -1016,6 +1063,9 @@ func main() {
 			}
 		}
 		vlib.Parallel(len(reSet), func(i int) {
+			if over("layer R re-encodings") {
+				return
+			}
 			var lc localCount
 			s := reSet[i]
 			tree := space.Raw(s.enc)
@@ -1038,6 +1088,9 @@ func main() {
 	}
 
 	phase("R done")
+	if deadlineAt != "" {
+		c.NotExhaustive("soft deadline reached in " + deadlineAt + "; later work items were skipped")
+	}
 	// ---- evidence ----
 	c.Set("reenc_layerE_decoder_verdicts", reStats)
 	var rk []string
